@@ -53,7 +53,9 @@ COMMON = (" Bundles: every call from every state reachable within <=4 slots (gen
           " all freed slots (thorough 7). Mechanism specifications (spec/mechanisms: Links, ArenaImpl, Stamp, FreeList, CloneFrom, Walk, DEIter, IndentWriter, Readers) are"
           " model-checked to refine the abstract specification. Beyond the bounds of the model, size probes of the implementation (a chain of 300 000 levels,"
           " sibling lists of 700 nodes, 110 000 generations of one slot, capacities of 600 / 1100, in a child process on small stacks) check the values that the"
-          " size alone determines; they are drivers of the implementation, not model results.")
+          " size alone determines; they are drivers of the implementation, not model results. Every bundle state is also reached through"
+          " dst.clone_from(&arena) onto a used destination before its calls / observers are compared; recorded histories include forests of 40 - 300 nodes"
+          " that are neither chains nor flat lists (mix bushy).")
 for k in list(CLAIMS):
     if k in ("C01", "C02", "C03", "C04", "C05", "C06", "C07", "C08", "C09", "C10", "C11", "C12", "C13", "C16"):
         c = CLAIMS[k]
